@@ -157,7 +157,10 @@ def build_direct(sc, collector=True):
     return m
 
 
-def build_bptk(scenarios, class_path=False):
+BASE_TBL = [[0.0, 1.0], [10.0, 1.0]]
+
+
+def build_bptk(scenarios, class_path=False, lookups=None):
     """register the scenarios with a real bptk through ScenarioManagerHybrid (one deep copy of the
     base model per scenario) and load each scenario's script into its own world"""
     import BPTK_Py
@@ -165,12 +168,18 @@ def build_bptk(scenarios, class_path=False):
     from models.abm_agents import make_model
     configure_bptk_globals()
     base = make_model(0, 1, 1.0, name="base")
+    if lookups is not None:
+        # a hybrid model: a graphical function of the model, which a scenario may replace through a Lookup-type property
+        base.points["tbl"] = [list(x) for x in BASE_TBL]
     b = BPTK_Py.bptk()
+    b._verif_base_model = base
     sdict = {}
     for n, sc in enumerate(scenarios):
         sdict["s%d" % n] = {"runspecs": {"starttime": sc["start"], "stoptime": sc["stop"], "dt": sc["dt"]},
                             "properties": {},
                             "agents": [{"name": t, "count": c} for t, c in sc["init"]]}
+        if lookups is not None and lookups[n] is not None:
+            sdict["s%d" % n]["properties"] = {"tbl": {"type": "Lookup", "value": [list(x) for x in lookups[n]]}}
     if class_path:
         # the manager names its model class in dot notation (the scenario-file / dictionary notation):
         # ScenarioManagerHybrid instantiates the class once per scenario instead of deep-copying a model object
